@@ -26,12 +26,12 @@ def closure_sel(trait_closure, wb, post, ctor, fut=False):
         Sel('struct Closure', inside=wb),
         Sel('impl BlockSizeUser for Closure', inside=wb),
         Sel('impl BlockCipherEncClosure for Closure', inside=wb, members='''
-    open spec fn pre_c(&self) -> bool { true }
+    open spec fn pre_c(&self) -> bool { %s }
     #[verifier::prophetic]
     open spec fn post_c(&self, enc: spec_fn(Blk) -> Blk) -> bool {
         self.f.%s(%s(enc), %s, %s)
     }
-''' % (post, ctor,
+''' % ('self.f.pre()' if post == 'post' else 'true', post, ctor,
        'seq![self.iv@]' if post == 'post' else 'KAbs { base: self.iv@, pos: 0 }',
        'seq![mut_ref_future(self.iv)@]' if post == 'post' else 'KAbs { base: mut_ref_future(self.iv)@, pos: 0 }'),
             fns={'call': FnC(props=('C07', 'C03', 'C14'), inherits=True, note='plumbing')}),
@@ -81,4 +81,4 @@ def unit():
         Sel('impl BlockModeDecBackend for Backend', members=K.backend_members('ofb_step(self.backend.enc_fn())'),
             fns={'decrypt_block': block_fn('BlockModeDecBackend')}),
     ]
-    return Unit('ofb', prelude=K.PRELUDE_BLOCK, spec=['steps.rs'], mods=[Mod('ofb_lib', 'ofb/src/lib.rs', items=items)])
+    return Unit('ofb', prelude=K.PRELUDE_BLOCK, spec=['steps.rs'], mods=K.DEPS() + [Mod('ofb_lib', 'ofb/src/lib.rs', items=items)])
